@@ -404,25 +404,41 @@ class _resolve_called_lambdas(ast.NodeTransformer):
     def __init__(self):
         self._arg_map_list = []
 
+    @staticmethod
+    def _bind_arguments(node: ast.Call) -> Optional[Dict[str, ast.expr]]:
+        """Which expression each parameter of the called lambda gets - from a positional
+        argument, a keyword or its default. `None` if the call is not that simple (starred
+        arguments, `*args`, keyword-only parameters, missing or surplus arguments...)."""
+        l_args = node.func.args  # type: ignore
+        if l_args.vararg or l_args.kwarg or l_args.kwonlyargs or l_args.posonlyargs:
+            return None
+        names = [a.arg for a in l_args.args]
+        if len(node.args) > len(names) or any(isinstance(a, ast.Starred) for a in node.args):
+            return None
+        bound = dict(zip(names, node.args))
+        for k in node.keywords:
+            if k.arg is None or k.arg not in names or k.arg in bound:
+                return None
+            bound[k.arg] = k.value
+        for name, default in zip(names[len(names) - len(l_args.defaults) :], l_args.defaults):
+            bound.setdefault(name, default)
+        if len(bound) != len(names):
+            return None
+        return bound
+
     def visit_Call(self, node: ast.Call) -> Any:
         # Check if the function being called is a lambda
         if isinstance(node.func, ast.Lambda):
-            lambda_node = node.func
-
-            # Ensure the lambda has arguments and a body
-            if len(lambda_node.args.args) == len(node.args):
-                arg_map = {
-                    lambda_node.args.args[i].arg: self.visit(node.args[i])
-                    for i in range(len(lambda_node.args.args))
-                }
+            bound = self._bind_arguments(node)
+            if bound is not None:
+                # Arguments (and defaults) are evaluated outside the lambda
+                arg_map = {name: self.visit(value) for name, value in bound.items()}
                 self._arg_map_list.append(arg_map)
 
-                result = self.visit(lambda_node.body)
+                result = self.visit(node.func.body)
                 self._arg_map_list.pop()
                 return result
-        else:
-            return self.generic_visit(node)
-        return node
+        return self.generic_visit(node)
 
     def visit_Lambda(self, node: ast.Lambda) -> Any:
         """A lambda that is not being called: its own parameters hide the arguments we are
